@@ -52,17 +52,20 @@ type target struct {
 	bin   string
 	args  []string
 	stdin bool
+	extra string // "two-files": an intact plain file is given before the faulty one
 }
 
 func targets(codec string) []target {
 	t := []target{
-		{"obiconvert:file", "obiconvert", nil, false},
-		{"obicount:file", "obicount", nil, false},
-		{"obigrep:file", "obigrep", []string{"-l", "1"}, false},
+		{"obiconvert:file", "obiconvert", nil, false, ""},
+		{"obicount:file", "obicount", nil, false, ""},
+		{"obigrep:file", "obigrep", []string{"-l", "1"}, false, ""},
+		{"obiconvert:two-files", "obiconvert", nil, false, "two-files"},
+		{"obiconvert:two-files-forced-format", "obiconvert", []string{"--FORMAT"}, false, "two-files"},
 	}
 	if codec == "gzip" {
 		// the stdin path goes through zlib (kseq): plain and gzip only
-		t = append(t, target{"obiconvert:stdin", "obiconvert", nil, true})
+		t = append(t, target{"obiconvert:stdin", "obiconvert", nil, true, ""})
 	}
 	return t
 }
@@ -73,12 +76,32 @@ func runCmd(c *core.Ctx, t target, path string) cmdx.Res {
 		args = append([]string{"--no-progressbar"}, args...)
 	}
 	opt := cmdx.Opt{Timeout: 90 * time.Second}
+	for i, a := range args {
+		if a == "--FORMAT" {
+			args[i] = "--fasta"
+			if strings.Contains(path, ".fastq") {
+				args[i] = "--fastq"
+			}
+		}
+	}
 	if t.stdin {
 		opt.StdinFile = path
 	} else {
+		if t.extra == "two-files" {
+			args = append(args, okFileFor(path))
+		}
 		args = append(args, path)
 	}
 	return cmdx.Run(filepath.Join(c.BinDir, t.bin), args, opt)
+}
+
+// okFileFor returns the path of the intact, uncompressed companion of a faulty file (written by runTruncate).
+func okFileFor(path string) string {
+	ext := ".fasta"
+	if strings.Contains(path, ".fastq") {
+		ext = ".fastq"
+	}
+	return path + ".ok" + ext
 }
 
 // points returns the fault offsets to explore in [lo, n): all of them when n is small, else head, tail and a sample.
@@ -128,7 +151,11 @@ func runTruncate(c *core.Ctx, codec string) {
 	n, class := sizeParams(c)
 	fastq := c.Idx%2 == 1
 	text := seqText(c.Rng, n, fastq)
-	comp, err := gen.Compress(codec, text)
+	enc := codec
+	if codec == "xz" && c.Idx%2 == 1 {
+		enc = "xz-multiblock"
+	}
+	comp, err := gen.Compress(enc, text)
 	if err != nil {
 		c.Inconclusive("cannot compress: " + err.Error())
 		return
@@ -140,6 +167,8 @@ func runTruncate(c *core.Ctx, codec string) {
 	base := filepath.Join(c.Dir, fmt.Sprintf("t%d%s%s", c.Idx, ext, gen.CodecExt(codec)))
 	defer os.Remove(base)
 	tg := targets(codec)
+	os.WriteFile(okFileFor(base), seqText(c.Rng, 5, fastq), 0o644)
+	defer os.Remove(okFileFor(base))
 	// sanity: the intact file must be accepted
 	os.WriteFile(base, comp, 0o644)
 	for _, t := range tg {
@@ -151,6 +180,19 @@ func runTruncate(c *core.Ctx, codec string) {
 	}
 	c.Sample(map[string]any{"codec": codec, "format": ext, "records": n, "compressed_bytes": len(comp), "faults": "truncation at byte k (k from 6 to len-1)"})
 	pts := points(c, 6, len(comp), c.Pick(40, 4096), c.Pick(40, 200))
+	// plus the cuts at which the decoding library itself reads the prefix to a clean EOF
+	silent := gen.SilentPrefixCuts(enc, comp)
+	c.Count("library_silent_prefixes", len(silent))
+	have := map[int]bool{}
+	for _, k := range pts {
+		have[k] = true
+	}
+	for _, k := range silent {
+		if !have[k] && len(pts) < c.Pick(120, 6000) {
+			pts = append(pts, k)
+			have[k] = true
+		}
+	}
 	for _, k := range pts {
 		os.WriteFile(base, comp[:k], 0o644)
 		t := tg[(k+c.Idx)%len(tg)]
